@@ -7,7 +7,7 @@ From OV Require Import Base.Panic Base.Arith Model.Vector Model.Matrix Model.Spa
 From OV Require Import Proofs.SparseBase Proofs.SparseMul Proofs.IterSparse Proofs.IterSparseErr Proofs.IterSparseR
   Proofs.IterSparseBreakdown Proofs.IterCGExamples.
 From OV Require Import Proofs.SparseBase Proofs.SparseMul Proofs.IterR Proofs.IterSparse Proofs.IterSparseR Proofs.IterSparseBreakdown Proofs.IterSparseBreakdownField Proofs.IterSparseBreakdownQMR Proofs.IterSparseBreakdownTri
-  Proofs.IterCGVec Proofs.IterCGDim Proofs.IterCG Proofs.IterCGR Proofs.IterCGBi Proofs.IterCGSparse Proofs.IterCGExamples.
+  Proofs.IterCGVec Proofs.IterCGDim Proofs.IterCG Proofs.IterCGR Proofs.IterCGBi Proofs.IterCGSparse Proofs.IterCGDominant Proofs.IterCGExamples.
 Import ListNotations.
 Module C08.
 (* the hypothesis LinOp of ok_means_solved / residual_invariant_* / exact_guess_ok0 discharged for EVERY well-formed square
@@ -559,6 +559,48 @@ Check bicg_terminates_spd_sparse_R : forall (s : sparse AR) itol (b x0 : list R)
 Print Assumptions bicg_terminates_spd_sparse_R.
 Example bicg_terminates_spd_sparse_R_nonvacuous : wfS exr_s /\ sp_rows exr_s = sp_cols exr_s /\ sp_symmetric exr_s /\ sp_posdef exr_s.
 Proof. destruct exr_spd_hyps as (H1 & H2 & H3 & H4 & _). auto. Qed.
+
+(* the class "strictly diagonally dominant" of C09, as far as exact-arithmetic convergence is provable: a real symmetric matrix that is strictly
+   diagonally dominant with a positive diagonal (sp_sdd_pos: a_ii > sum_{j<>i} |a_ij|, read off the entries) is positive definite ... *)
+Theorem sdd_symmetric_is_posdef : forall (s : sparse AR), sp_rows s = sp_cols s -> sp_symmetric s -> sp_sdd_pos s -> sp_posdef s.
+Proof. intros s. exact (sdd_sym_posdef s). Qed.
+Check sdd_symmetric_is_posdef : forall (s : sparse AR), sp_rows s = sp_cols s -> sp_symmetric s -> sp_sdd_pos s -> sp_posdef s.
+Print Assumptions sdd_symmetric_is_posdef.
+Example sdd_symmetric_is_posdef_nonvacuous : wfS exr_s /\ sp_rows exr_s = sp_cols exr_s /\ sp_symmetric exr_s /\ sp_sdd_pos exr_s.
+Proof. split; [exact exr_s_wf|]. split; [reflexivity|]. split; [exact exr_s_sym | exact exr_s_sdd]. Qed.
+
+(* ... hence on every such storage CG answers Ok within n iterations, solved, for every b, x0, tol >= 0, budget >= n *)
+Theorem cg_terminates_sdd_sparse_R : forall (s : sparse AR) (b x0 : list R) max (tol : R),
+  wfS s -> sp_rows s = sp_cols s -> sp_symmetric s -> sp_sdd_pos s ->
+  length b = sp_rows s -> length x0 = sp_rows s -> (0 <= tol)%R -> sp_rows s <= max ->
+  exists k x g, @run_sparse SAR CG s b x0 max tol = Ok (IOk k, x, g) /\ k <= sp_rows s /\
+    (@norm2 SAR (@zipw AR Rminus b (@sp_apply AR s x)) <= tol * @nz SAR (@norm2 SAR b))%R.
+Proof. intros s b x0 max tol. exact (cg_terminates_sdd_sparse_R s b x0 max tol). Qed.
+Check cg_terminates_sdd_sparse_R : forall (s : sparse AR) (b x0 : list R) max (tol : R),
+  wfS s -> sp_rows s = sp_cols s -> sp_symmetric s -> sp_sdd_pos s ->
+  length b = sp_rows s -> length x0 = sp_rows s -> (0 <= tol)%R -> sp_rows s <= max ->
+  exists k x g, @run_sparse SAR CG s b x0 max tol = Ok (IOk k, x, g) /\ k <= sp_rows s /\
+    (@norm2 SAR (@zipw AR Rminus b (@sp_apply AR s x)) <= tol * @nz SAR (@norm2 SAR b))%R.
+Print Assumptions cg_terminates_sdd_sparse_R.
+Example cg_terminates_sdd_sparse_R_nonvacuous : wfS exr_s /\ sp_rows exr_s = sp_cols exr_s /\ sp_symmetric exr_s /\ sp_sdd_pos exr_s.
+Proof. split; [exact exr_s_wf|]. split; [reflexivity|]. split; [exact exr_s_sym | exact exr_s_sdd]. Qed.
+
+(* ... and so does BiCG with either error measure.  (For NONsymmetric strictly diagonally dominant systems no such theorem exists: the
+   left-eigenvector breakdowns below are strictly diagonally dominant.) *)
+Theorem bicg_terminates_sdd_sparse_R : forall (s : sparse AR) itol (b x0 : list R) max (tol : R),
+  wfS s -> sp_rows s = sp_cols s -> sp_symmetric s -> sp_sdd_pos s -> itol = 1 \/ itol = 2 ->
+  length b = sp_rows s -> length x0 = sp_rows s -> (0 <= tol)%R -> sp_rows s <= max ->
+  exists k x g, @run_sparse SAR (BiCG itol) s b x0 max tol = Ok (IOk k, x, g) /\ k <= sp_rows s /\
+    (@norm2 SAR (@zipw AR Rminus b (@sp_apply AR s x)) <= tol * @nz SAR (@norm2 SAR b))%R.
+Proof. intros s itol b x0 max tol. exact (bicg_terminates_sdd_sparse_R s itol b x0 max tol). Qed.
+Check bicg_terminates_sdd_sparse_R : forall (s : sparse AR) itol (b x0 : list R) max (tol : R),
+  wfS s -> sp_rows s = sp_cols s -> sp_symmetric s -> sp_sdd_pos s -> itol = 1 \/ itol = 2 ->
+  length b = sp_rows s -> length x0 = sp_rows s -> (0 <= tol)%R -> sp_rows s <= max ->
+  exists k x g, @run_sparse SAR (BiCG itol) s b x0 max tol = Ok (IOk k, x, g) /\ k <= sp_rows s /\
+    (@norm2 SAR (@zipw AR Rminus b (@sp_apply AR s x)) <= tol * @nz SAR (@norm2 SAR b))%R.
+Print Assumptions bicg_terminates_sdd_sparse_R.
+Example bicg_terminates_sdd_sparse_R_nonvacuous : wfS exr_s /\ sp_rows exr_s = sp_cols exr_s /\ sp_symmetric exr_s /\ sp_sdd_pos exr_s.
+Proof. split; [exact exr_s_wf|]. split; [reflexivity|]. split; [exact exr_s_sym | exact exr_s_sdd]. Qed.
 
 (* (3) ANY arithmetic (floats included), any products, any sizes.  The ghost exit code g_exit names the `return` taken (Model/Iter.v).
    BiCGSTAB: an Err is budget exhaustion (2), the `rho_1 == 0` exit (10) or the `omega == 0` exit (11), nothing else *)
